@@ -135,3 +135,22 @@ Example fold_pow_ex :
       [(Fin false 1 0, NaN); (Fin false 1 0, Inf false); (Fin true 1 0, Inf true); (Fin false 2 0, Inf true); (Fin true 0 0, Fin true 3 0)]
   = [Some NaN; Some NaN; Some NaN; Some (Fin false 0 0); Some (Inf true)] /\ wf_double (Fin false 1 0).
 Proof. split; [vm_compute; reflexivity | cbn; unfold two53; lia]. Qed.
+
+From V Require Import C03.TreeProofs7 C03.TreeProofs8.
+(* simplify_unused_sound_partial on a real input in the effectful world Wgood:
+     [`t${g()}${1}`, x.k, ...[g()]] && (g() ? 1 : g())   (unused)
+   keeps the template conversion, the getter and the calls, drops the rest *)
+Definition ex_su : expr :=
+  EBin BLogAnd
+    (EArray [ETemplate [116] [(ECall (EId 1000 false false) [] 0 false, []); (ENum (Fin false 1 0), [])];
+             EDot (EId 1 false false) [107] 0 false false;
+             ESpread (EArray [ECall (EId 1000 false false) [] 0 false])])
+    (EIf (ECall (EId 1000 false false) [] 0 false) (ENum (Fin false 1 0)) (ECall (EId 1000 false false) [] 0 false)).
+Example simplify_unused_ex :
+  simplify_unused (w_unbound Wgood) true ex_su <> UFuel /\ no_bad ex_su /\ flags_ok Wgood ex_su /\
+  eval Wgood [] ex_su = Some ([99; 7; 99; 99], Throw (VStr [101])) /\
+  eval_unused Wgood [] (simplify_unused (w_unbound Wgood) true ex_su) = Some ([99; 7; 99; 99], Throw (VStr [101])).
+Proof.
+  split; [vm_compute; discriminate|]. split; [cbn; tauto|]. split; [cbn; repeat split; intros; try discriminate; exact I|].
+  split; vm_compute; reflexivity.
+Qed.
